@@ -4,6 +4,7 @@
 
 mod common;
 mod gen;
+mod pki;
 mod p_backoff;
 mod p_codec;
 
